@@ -103,7 +103,8 @@ Step ==
          /\ drift' = "none"
          /\ UNCHANGED <<cnt, fil, clo>>
     [] e = "s_end" ->      \* every Session.Close call returned (or not); observations after a bounded wait
-         /\ bad' = IF Cur.q = "hang" THEN "CloseReturns"
+         /\ bad' = IF Cur.q = "unsure" THEN "none"     \* an observation that could not be settled: no verdict
+                   ELSE IF Cur.q = "hang" THEN "CloseReturns"
                    ELSE IF open # {} THEN "AllConnsClosedAfterClose"
                    ELSE IF Cur.q = "caller-stuck" THEN "CallersReturn"
                    ELSE IF Cur.q # "session-closed" THEN "QueryAfterClose"
